@@ -26,7 +26,6 @@ where
     Init,
     Seek(Inflater<R>),
     Finish(TryBuffered<Inflater<R>>),
-    Done(VirtualPosition),
 }
 
 pin_project! {
@@ -177,19 +176,35 @@ where
 
         let mut stream = blocks.try_buffered(self.worker_count.get());
 
-        self.block = match stream.try_next().await? {
-            Some(mut block) => {
-                let (cpos, upos) = pos.into();
+        let (cpos, upos) = pos.into();
+        self.position = cpos;
 
-                self.position = cpos + block.size();
+        // Like the synchronous reader, read up to the next nonempty block. If there is none, i.e.,
+        // at EOF, the current block is an empty block at the current position.
+        loop {
+            match stream.try_next().await {
+                Ok(Some(mut block)) => {
+                    block.set_position(self.position);
+                    self.position += block.size();
+                    let data_len = block.data().len();
+                    self.block = block;
 
-                block.set_position(cpos);
-                block.data_mut().set_position(usize::from(upos));
-
-                block
+                    if data_len > 0 {
+                        break;
+                    }
+                }
+                Ok(None) => {
+                    self.block.clear(self.position);
+                    break;
+                }
+                Err(e) => {
+                    self.stream.replace(stream);
+                    return Err(e);
+                }
             }
-            None => Block::default(),
-        };
+        }
+
+        self.block.data_mut().set_position(usize::from(upos));
 
         self.stream.replace(stream);
 
@@ -212,51 +227,70 @@ where
                 SeekState::Seek(mut blocks) => {
                     match Pin::new(&mut blocks).poll_seek(cx, pos) {
                         Poll::Ready(Ok(_)) => {}
-                        Poll::Ready(Err(e)) => return Poll::Ready(Err(e)),
+                        Poll::Ready(Err(e)) => {
+                            let stream = blocks.try_buffered(self.worker_count.get());
+                            self.stream.replace(stream);
+                            self.seek_state = Some(SeekState::Init);
+                            return Poll::Ready(Err(e));
+                        }
                         Poll::Pending => {
                             self.seek_state = Some(SeekState::Seek(blocks));
                             return Poll::Pending;
                         }
                     }
 
+                    self.position = pos.compressed();
+
                     let stream = blocks.try_buffered(self.worker_count.get());
                     Some(SeekState::Finish(stream))
                 }
                 SeekState::Finish(mut stream) => {
-                    let item = match Pin::new(&mut stream).poll_next(cx) {
-                        Poll::Ready(item) => item,
-                        Poll::Pending => {
-                            self.seek_state = Some(SeekState::Finish(stream));
-                            return Poll::Pending;
+                    // Like the synchronous reader, read up to the next nonempty block. If there is
+                    // none, i.e., at EOF, the current block is an empty block at the current
+                    // position.
+                    loop {
+                        let item = match Pin::new(&mut stream).poll_next(cx) {
+                            Poll::Ready(item) => item,
+                            Poll::Pending => {
+                                self.seek_state = Some(SeekState::Finish(stream));
+                                return Poll::Pending;
+                            }
+                        };
+
+                        match item {
+                            Some(Ok(mut block)) => {
+                                block.set_position(self.position);
+                                self.position += block.size();
+                                let data_len = block.data().len();
+                                self.block = block;
+
+                                if data_len > 0 {
+                                    break;
+                                }
+                            }
+                            Some(Err(e)) => {
+                                self.stream.replace(stream);
+                                self.seek_state = Some(SeekState::Init);
+                                return Poll::Ready(Err(e));
+                            }
+                            None => {
+                                let position = self.position;
+                                self.block.clear(position);
+                                break;
+                            }
                         }
-                    };
+                    }
 
-                    self.block = match item {
-                        Some(Ok(mut block)) => {
-                            let (cpos, upos) = pos.into();
-
-                            self.position = cpos + block.size();
-
-                            block.set_position(cpos);
-                            block.data_mut().set_position(usize::from(upos));
-
-                            block
-                        }
-                        Some(Err(e)) => return Poll::Ready(Err(e)),
-                        None => Block::default(),
-                    };
+                    let upos = pos.uncompressed();
+                    self.block.data_mut().set_position(usize::from(upos));
 
                     self.stream.replace(stream);
 
-                    Some(SeekState::Done(pos))
-                }
-                SeekState::Done(p) => {
-                    if pos == p {
-                        self.seek_state = Some(SeekState::Done(pos));
-                        return Poll::Ready(Ok(pos));
-                    } else {
-                        Some(SeekState::Init)
-                    }
+                    // The seek is complete. The next call starts a new seek, even if it is to the
+                    // same position: the stream has most likely been read from in the meantime.
+                    self.seek_state = Some(SeekState::Init);
+
+                    return Poll::Ready(Ok(pos));
                 }
             };
         }
